@@ -159,13 +159,27 @@ var (
 			}
 		}
 	}
+	// the generated module takes the GODEBUG defaults of the repository's own go version (timer
+	// channels, math/rand seeding, panic(nil), ...), i.e. the runtime behaviour the library is built and
+	// tested with, although the toolchain that compiles it is newer (the module's own go line has to be
+	// that of the simulator's module)
+	goVersion := "1.23"
+	if b, err := os.ReadFile(filepath.Join(s.RepoDir, "go.mod")); err == nil {
+		for _, l := range strings.Split(string(b), "\n") {
+			if f := strings.Fields(l); len(f) == 2 && f[0] == "go" {
+				goVersion = f[1]
+			}
+		}
+	}
+	gd := goVersion
+	if p := strings.Split(goVersion, "."); len(p) >= 2 {
+		gd = p[0] + "." + p[1]
+	}
 	gomod := fmt.Sprintf(`module %s
 
 go 1.26
 
-// the library is written against go 1.23 semantics: keep math/rand.Seed effective (only matters to the
-// passthrough validation of the library's own tests)
-godebug randseednop=0
+godebug default=go%s
 
 require (
 	bbsim v0.0.0
@@ -174,7 +188,7 @@ require (
 )
 
 replace bbsim => %s
-`, ScratchModule, s.VerifDir)
+`, ScratchModule, gd, s.VerifDir)
 	if err := os.WriteFile(filepath.Join(s.OutDir, "go.mod"), []byte(gomod), 0o644); err != nil {
 		return nil, err
 	}
